@@ -49,7 +49,7 @@ META = {
                   '(families, parameters, inheritance of completion) are '
                   'not explored.',
     'design_ref': 'DESIGN.md §5 C12, Appendix E.3',
-    'budget': {'quick': 90, 'thorough': 900},
+    'budget': {'quick': 120, 'thorough': 900},
 }
 RULE = ('A: case = one expression (tree shape, operators, leaves); '
         'non-trivial when it has >= 2 leaves. B: case = (graph marks, '
@@ -73,14 +73,14 @@ ASSUMPTIONS = [
 ]
 MIN = {
     'quick': {
-        'classify_exprs': 53646, 'classify_calls': 150000,
+        'classify_exprs': 53646, 'classify_calls': 200000,
         'classify_random_big': 500, 'validation_loads': 250,
         'validation_expect_accept': 60, 'validation_expect_reject': 60,
         'validation_illformed': 30, 'skip_checks': 1500,
         'skip_checks_via_config': 60,
     },
     'thorough': {
-        'classify_exprs': 53646, 'classify_calls': 150000,
+        'classify_exprs': 53646, 'classify_calls': 320000,
         'classify_random_big': 5000, 'validation_loads': 4000,
         'validation_expect_accept': 1000, 'validation_expect_reject': 1000,
         'validation_illformed': 400, 'skip_checks': 2400,
@@ -158,6 +158,9 @@ def check_classification(ctx, tree, outputs, messages, rng, big=False):
         variants.append('succeeded')
     if 'failed' in allcv:
         variants.append('failed')
+    if ctx.tier == 'quick' and len(variants) == 3:
+        # quick tier: the plain classification always, one disable= variant
+        variants.pop(1 + rng.randrange(2))
     for disable in variants:
         want = _as_code(M.classify_tree(
             tree, allcv, also_false=[disable] if disable else []))
